@@ -3,7 +3,7 @@
 From Coq Require Import List NArith Arith.
 From DS Require Import Gen.Constants Base.Bytes Base.Hash Base.Sched Model.Assemble Model.Clone
      Model.VerifyIndex Model.Sequencer Proofs.AssembleProofs Proofs.CloneProofs Proofs.SequencerProofs
-     Proofs.AssembleSeqProofs Proofs.AssembleLive Proofs.AssembleTraceProofs.
+     Proofs.AssembleSeqProofs Proofs.AssembleLive Proofs.AssembleTraceProofs Model.SelfSeed Proofs.SelfSeedProofs.
 Import ListNotations.
 
 (* SAFETY.  For every index, every plan that tiles it, every initial content of the (truncated)
@@ -138,6 +138,18 @@ Theorem C01_trace_valid_file : forall (H : bytes -> id) (idx : Assemble.index) (
   a_file s' = blob \/ Collision H.
 Proof. exact assemble_trace_valid. Qed.
 Print Assumptions C01_trace_valid_file.
+
+(* THE SELF SEED (selfseed.go).  Workers report finished segments with add() in any order; the
+   seed offers a row only below its write pointer.  For EVERY order of reports (duplicates and
+   gaps included): a row handed out by getChunk(id) carries that id, is the least such row, and
+   lies inside a segment that was reported -- i.e. inside a finished job, which is the guard
+   [finished s src] of the ESelfCopy event in Model/Assemble.v.  (Model compared with
+   selfSeed.add/getChunk on generated report orders on every run.) *)
+Theorem C01_selfseed_sound : forall (ids : list id) (adds : list (nat * nat)) (x : id) (p : nat),
+  ss_get ids (ss_run adds) x = Some p ->
+  nth_error ids p = Some x /\ covered_by adds p /\ (forall q, q < p -> nth_error ids q <> Some x).
+Proof. exact selfseed_sound. Qed.
+Print Assumptions C01_selfseed_sound.
 
 (* Non-vacuity: target rows 1 2 3 1 2; a null seed, a seed (9 1 2 3) without reflinks, a reflink
    seed (2 3 1 2 4).  Rows 0-2 and 3-4 come from seed 1 (ties go to the first seed); with seed 1
